@@ -164,8 +164,9 @@ class YamlDocument(HierDictDocument):
 
             ctx.in_document = yaml.load(s, **self.in_kwargs)
 
-        except yaml.YAMLError as e:
-            # ParserError, ScannerError, ReaderError, ConstructorError, ...
+        except (yaml.YAMLError, UnicodeDecodeError) as e:
+            # ParserError, ScannerError, ReaderError, ConstructorError, ... or
+            # bytes that are not in the declared (default: UTF-8) encoding
             raise Fault('Client.YamlDecodeError', repr(e))
 
     def create_out_string(self, ctx, out_string_encoding='utf8'):
